@@ -210,17 +210,18 @@ def check_pdf(chk, rep, repo):
            "expected `if pdf[i] < min: min = pdf[i]` and `if pdf[i] > max: max = pdf[i]` after the division")
     # normalisation
     eq = ("cmp", "==", *sorted([mn, mx], key=repr))
+    from ..schema import node_loop
     dstores = [e for e in w.events if e.kind == "store" and e.target[0] == "attr" and e.target[2] == "density"
-               and e.target[1][0] == "idx"]
+               and e.target[1] != G]
     cstores = [e for e in w.events if e.kind == "store" and e.target[0] == "attr" and e.target[2] == "cost"
-               and e.target[1][0] == "idx"]
+               and e.target[1] != G]
     MD = alg.conv(K("MAX_DENSITY"))
     n_ok = 0
     for e in dstores + cstores:
-        li = w.loops[e.loops[-1]] if e.loops else None
-        ii = ("iter", li.domain, li.lid) if li else None
-        node = ("idx", ("attr", G, "nodes"), ii)
-        fulln = li is not None and count_of(li.domain[2][-1]) == G and len(li.domain[2]) == 1 and e.target[1] == node
+        nl = node_loop(w.loops[e.loops[-1]]) if e.loops else None
+        fulln = nl is not None and nl[0] == G and e.target[1] == nl[2]
+        node = nl[2] if nl else None
+        ii = nl[1] if nl else None
         eq_branch = has_guard(e.guards, eq)
         ne_branch = has_guard(e.guards, mk_not(eq))
         fld = e.target[2]
@@ -228,7 +229,7 @@ def check_pdf(chk, rep, repo):
         if fulln and eq_branch:
             want = MD if fld == "density" else MD - 1
             ok = alg.equal(alg.conv(e.value), want)
-        elif fulln and ne_branch:
+        elif fulln and ne_branch and ii is not None:
             p_i = alg.conv(("idx", pdf, ii))
             dform = (MD - 1) * (p_i - alg.conv(mn)) / (alg.conv(mx) - alg.conv(mn)) + 1
             if fld == "density":
@@ -272,14 +273,14 @@ def check_eliminate(chk, rep, repo):
     st = [e for e in w.events if e.kind == "store"]
     ok = False
     if len(st) == 1 and st[0].loops:
+        from ..schema import node_loop
         e = st[0]
-        li = w.loops[e.loops[-1]]
-        i = ("iter", li.domain, li.lid)
-        node = ("idx", ("attr", G, "nodes"), i)
-        full = count_of(li.domain[2][-1]) == G and len(li.domain[2]) == 1
-        want = ("max", tuple(sorted([("bin", "-", ("attr", node, "density"), h), ("const", 0)], key=repr)))
-        guard = ("cmp", "<", ("const", 0), h)
-        ok = full and e.target == ("attr", node, "cost") and e.value == want and facts(e.guards) == (guard,)
+        nl = node_loop(w.loops[e.loops[-1]])
+        if nl is not None and nl[0] == G:
+            node = nl[2]
+            want = ("max", tuple(sorted([("bin", "-", ("attr", node, "density"), h), ("const", 0)], key=repr)))
+            guard = ("cmp", "<", ("const", 0), h)
+            ok = e.target == ("attr", node, "cost") and e.value == want and facts(e.guards) == (guard,)
     rep.fn("ELIM", fn, "height > 0: cost = max(density - height, 0) for every node; otherwise nothing changes", ok,
            "eliminate_maxima_height must be guarded by height > 0 and clamp density - height at 0")
 
